@@ -65,9 +65,15 @@ func (p *c19) build(seed uint64, tier string) []C19Scenario {
 	}
 	ops := []string{"dial", "dialandsend"}
 	idx := 0
+	sr := sim.NewRand(sim.Derive(seed, 19, 4242))
 	add := func(s C19Scenario) {
 		idx++
 		s.Sched = sim.Derive(seed, 19, uint64(idx))
+		s.Server.Caps = append([]string(nil), s.Server.Caps...)
+		Swarm(sr, &s.Client, &s.Server.Caps)
+		if strings.HasPrefix(s.Step, "NOOP") || strings.Contains(s.Step, "+") {
+			s.Client.NoNoop = false
+		}
 		out = append(out, s)
 	}
 	for _, pol := range policies {
